@@ -109,6 +109,12 @@ def r15_6(ctx):
     if not pf:
         return r
     r.saw(pf["path"])
+    # the comment scan is independent of the option: the annotation takes precedence over it (R15.1), so the scan cannot be skipped for it
+    ps_ = C.role(ctx, "pragma_search")
+    if ps_ is not None:
+        reads_opt = [n for n in walk(ps_["body"]) if n.get("k") == "Field" and (field_path(n) or "").startswith("self.options.pragma")]
+        r.ob("the comment scan does not consult the `pragma` option", not reads_opt, C.mloc(ps_, reads_opt[0]) if reads_opt else C.mloc(ps_, ps_),
+             "no read of options.pragma" if not reads_opt else "the scan reads options.pragma: with the option set an `@jsx` annotation is no longer looked for, although it takes precedence")
     priv = [n for n in walk(pf["body"]) if "private_ident" in (n.get("mac") or [])]
     fresh = [n for n in walk(pf["body"]) if n.get("k") in ("Call", "MethodCall") and (n.get("callee") or "").endswith(("Mark::new", "Mark::fresh", "SyntaxContext::apply_mark"))]
     ok = not priv and not fresh
